@@ -354,6 +354,25 @@ func runSeq(c seqCase) (what string, compared int) {
 			}
 		}
 	}
+	// a long chain of derivations (request-scoped loggers accumulate attributes one With at a time)
+	if c.Salt%7 == 0 {
+		deep := root
+		for d := 1; d <= 40; d++ {
+			side := derive(deep, attrsN(1, c.Salt+100+d)) // a sibling derived at every level and never used again
+			deep = derive(deep, attrsN(1+d%2, c.Salt+d))
+			if d <= 5 || d%8 <= 1 || d == 40 {
+				for _, nd := range []node{deep, side} {
+					w, cmp := logThrough(rec, o, nd, mkRecord(slog.LevelError, "deep", d%3, c.Salt+d, d%2 == 0))
+					if cmp {
+						compared++
+					}
+					if w != "" {
+						return fmt.Sprintf("handler at depth %d of a chain of single derivations: %s", d, w), compared
+					}
+				}
+			}
+		}
+	}
 	// the same Record value handed to two sibling handlers (what a fan-out handler does)
 	for _, nat := range []int{0, 1, 4, 5, 6, 9, 17, 40} {
 		r := mkRecord(slog.LevelWarn, "fanout", nat, c.Salt+nat, true)
